@@ -46,9 +46,26 @@ def c15(ev, tier, seed):
     shift = "0" if tier == "thorough" else "6"
     hs = cl.run_harness("C15-sweep", ["sweep-varint", "--shift", shift, "--threads", str(cl.NCPU)])
     ev.add_harness("exhaustive sweep against the validated mirror", hs, as_traces=False)
+    # specification-level, symbolic: the laws hold for EVERY value 0..2^31-1 and EVERY byte string of length <= 5 (Apalache on
+    # AP_VarInt.tla, a sequence-free restatement that TLC checks against Codec.tla on the families above)
+    bst = cl.run_tlc_only("C15-bridge", "MC_APVarInt", "MC_APVarInt.cfg")
+    ev.add_tlc("MC_APVarInt (AP_VarInt restates Codec!EncVarInt / DecVarInt)", bst)
+    invs = ["DecodeTotal", "Injective"] + (["RoundTrip"] if tier == "thorough" else [])
+    ap = cl.run_apalache("C15-apalache", "AP_VarInt", invs)
+    ev.stages.append({"stage": "Apalache: VarInt laws over the whole domain (specification level)", "apalache": ap})
     ev.exhaustive = tier == "thorough"
     ev.assumptions = ["TLC integers are 32-bit: u32 inputs above 2^31-1 are represented as two 16-bit halves",
+                      "the Apalache stage proves laws of the specification's operators only; the code is bound to those operators by the vectors and the sweep",
                       "the Rust mirror of EncVarInt/DecVarInt is trusted only after it agreed with every TLC vector of this run"]
+
+
+def ap_rules(ev, prop, invs):
+    """specification-level, symbolic: arithmetic rules of Codec.tla over their whole domain (Apalache on AP_Rules.tla, which
+    TLC checks against Codec!AlignedBuf / PadFor on 0..70000)."""
+    bst = cl.run_tlc_only(prop + "-bridge", "MC_APRules", "MC_APRules.cfg")
+    ev.add_tlc("MC_APRules (AP_Rules restates Codec!AlignedBuf / PadFor)", bst)
+    ap = cl.run_apalache(prop + "-apalache", "AP_Rules", invs)
+    ev.stages.append({"stage": "Apalache: %s over the whole domain (specification level)" % ", ".join(invs), "apalache": ap})
 
 
 # ---------------------------------------------------------------------------- C16
@@ -78,6 +95,7 @@ def c17(ev, tier, seed):
     stats, h = cl.run_tlc_piped("C17-vectors", "MC_Codec17", cfg, ["vectors", "--prop", "C17"], timeout=900)
     ev.add_tlc("MC_Codec17 (%s)" % cfg, stats)
     ev.add_harness("vectors replayed on the code", h)
+    ap_rules(ev, "C17", ["PadLaws"])
     ev.exhaustive = False
     ev.assumptions = ["the end-of-request byte sequence is not public; its EndRequest part is compared here, the whole sequence "
                       "is observed through Request::close in the connection replays (C07)"]
@@ -199,6 +217,7 @@ def c06(ev, tier, seed):
     stats, h = cl.run_tlc_piped("C06-abuf", "MC_Codec06", "MC_Codec06.cfg", ["vectors", "--prop", "C06"])
     ev.add_tlc("MC_Codec06 (AlignedBuf)", stats)
     ev.add_harness("buffer-size vectors on Parser::new", h)
+    ap_rules(ev, "C06", ["BufLaws"])
     hs = cl.run_harness("C06-bufsweep", ["sweep-bufsize", "--max", "1048600" if tier == "thorough" else "70000"])
     ev.add_harness("buffer-size sweep against the vector-validated rule", hs, as_traces=False)
     rp_traces(ev, "C06", seed, 1500 if tier == "thorough" else 200)
@@ -448,14 +467,14 @@ def c12(ev, tier, seed):
 @check("C10")
 def c10(ev, tier, seed):
     ev.rule = ("MC_Writer: three tasks (stdout writer, stderr writer, and a clone of the stdout writer or the request's own reply "
-               "flushing) with programs over write sizes 0,1,2,3,5,7,8,9,16 (+ 65535, 65536, 70000 in menu 5) and flush; any runnable "
+               "flushing) with programs over write sizes 0,1,2,3,5,7,8,9,16 (+ 65536 in menu 6; 65535, 65536, 70000 in the thorough menu 5) and flush; any runnable "
                "task may be polled whenever no poll is in progress; the transport accepts bytes up to every structural boundary of a "
                "record image (inside the header, header/payload seam, inside the payload, payload/padding seam, inside the padding) "
                "or returns Pending (the lock stays with the task). Invariants NoInterleave, LockHeldWhileWriting, PerWriterOrder, "
                "ExactlyOnce. Every complete behaviour is replayed on real StreamWriters taken from a real Request (tasks polled in "
                "the behaviour's order) and the bytes reaching the client are compared with the record images the specification lists. "
                "Non-trivial: behaviours with lock contention or a Pending transport.")
-    menus = "{1, 2, 3, 4}" if tier == "quick" else "{1, 2, 3, 4, 5}"
+    menus = "{1, 2, 3, 4, 6}" if tier == "quick" else "{1, 2, 3, 4, 5, 6}"
     cuts, pends = (1, 2) if tier == "quick" else (2, 2)
     cfg = ("SPECIFICATION Spec\nCONSTANTS\n  NT = 3\n  MaxCuts = %d\n  MaxPend = %d\n  Menu = %s\n"
            "INVARIANTS NoInterleave LockHeldWhileWriting PerWriterOrder ExactlyOnce Emit\nCHECK_DEADLOCK FALSE\n" % (cuts, pends, menus))
@@ -510,6 +529,12 @@ def c14(ev, tier, seed):
     live = ("SPECIFICATION LiveSpec\nCONSTANTS\n  NTok = 3\n  MaxPolls = 0\nINVARIANTS ShutdownNotEarly ShutdownWoken\nPROPERTY Completes\nCHECK_DEADLOCK FALSE\n")
     stats, h = cl.run_tlc_piped("C14-wg-live", "MC_WaitGroup", live, ["runner-replay", "--prop", "C14", "--which", "waitgroup"], workers=1)
     ev.add_tlc("MC_WaitGroup liveness (Completes under weak fairness)", stats)
+    # specification-level, symbolic: both safety properties for ANY number of tokens by an inductive invariant (Apalache on
+    # AP_WaitGroup.tla, which TLC shows to be refined by WaitGroup.tla)
+    bst = cl.run_tlc_only("C14-bridge", "MC_APWaitGroup", "MC_APWaitGroup.cfg")
+    ev.add_tlc("MC_APWaitGroup (WaitGroup!Spec refines AP_WaitGroup!Spec, NTok=3)", bst)
+    ap = cl.run_apalache("C14-apalache", "AP_WaitGroup", [("IndInv", "WInit", 0), ("IndInv", "IndInit", 1), ("Safety", "IndInit", 0)])
+    ev.stages.append({"stage": "Apalache: inductive invariant => ShutdownNotEarly, ShutdownWoken for any NTok (specification level)", "apalache": ap})
     conn_model(ev, "C14", seed, "stops-b24", 24, ["basic"], spurious=True, stops=True, maxcuts=1, maxpend=1)
     if tier == "thorough":
         conn_model(ev, "C14", seed, "stops-b32", 32, ["basic", "query"], spurious=True, stops=True, maxcuts=1, maxpend=2)
